@@ -130,6 +130,20 @@ impl Iso {
     }
 }
 
+/// declared-count attack at EVERY byte position of a (small) encoding, in every width a count is written in:
+/// varint, u32 little-endian (Bulletproof proofs) and one raw byte (BulletproofPlus proofs)
+fn count_attacks_everywhere(b: &[u8], r: &mut Rng) -> Vec<Vec<u8>> {
+    let cap = monero::consensus::encode::MAX_VEC_MEM_ALLOC_SIZE as u64;
+    let mut out = vec![];
+    for pos in 0..b.len() {
+        let cnt = *r.pick(&[100_000u64, 400_000, cap / 336, cap / 336 + 1, cap / 32 + 1, 1 << 22, 1 << 25, (1 << 32) - 1]);
+        let mut m = b[..pos].to_vec(); m.extend_from_slice(&(cnt as u32).to_le_bytes()); m.extend_from_slice(&b[(pos + 4).min(b.len())..]); out.push(m);
+        let mut m = b[..pos].to_vec(); m.extend(gen::varint_bytes(cnt)); m.extend_from_slice(&b[(pos + 1).min(b.len())..]); out.push(m);
+        if r.chance(1, 4) { let mut m = b.to_vec(); m[pos] = 0xff; out.push(m); }
+    }
+    out
+}
+
 fn lenpos_attacks(b: &[u8], r: &mut Rng) -> Vec<Vec<u8>> {
     // overwrite each of the first bytes by huge varint counts (declared-length attack at every position)
     let cap = monero::consensus::encode::MAX_VEC_MEM_ALLOC_SIZE as u64;
@@ -158,6 +172,20 @@ pub fn run(o: &mut Out, tier: &str, seed: u64) {
             bin(&mut iso, o, "block", &bb, true); for _ in 0..4 { let m = gen::mutate(&mut r, &bb); bin(&mut iso, o, "block", &m, false); }
             if it % 12 == 0 { for m in lenpos_attacks(&bb, &mut r) { bin(&mut iso, o, "block", &m, false); } } }
     }
+    // (1b) small transactions of every RingCT type with a count attack at every byte position (finds every count field, whatever
+    //      its width and wherever it sits: inputs, ring offsets, outputs, extra, proof counts, L/R vectors)
+    for ty in gen::RCT_TYPES { for nbp in [0usize, 1] {
+        let sh = gen::Shape { vary_rings: false, version: 2, nin: 1, ring: 2, nout: if matches!(ty, monero::util::ringct::RctType::Full | monero::util::ringct::RctType::Simple) { 0 } else { 1 }, coinbase_first: false, all_coinbase: false, rct: ty, nbp, extra_len: 3 };
+        let tx = gen::tx_of(&mut r, &sh); let b = serialize(&tx);
+        bin(&mut iso, o, "tx", &b, true);
+        for m in count_attacks_everywhere(&b, &mut r) { bin(&mut iso, o, "tx", &m, false); }
+    } }
+    { let blk = gen::block(&mut r, 2); let b = serialize(&blk); for m in count_attacks_everywhere(&b, &mut r) { bin(&mut iso, o, "block", &m, false); } }
+    // extras with long runs of zero bytes (padding beyond 255), alone and inside a transaction that is then scanned
+    for zeros in [254usize, 255, 256, 257, 300, 511, 512, 1000] { for lead in [vec![], vec![1u8; 0], { let mut k = vec![1u8]; k.extend(PublicKey::from_private_key(&view_pair().view).as_bytes()); k }] {
+        let mut e = lead.clone(); e.push(0); e.extend(vec![0u8; zeros]); bin(&mut iso, o, "extra", &e, true);
+        let mut tx = gen::miner_tx(&mut r); tx.prefix.extra = RawExtraField(e.clone()); let b = serialize(&tx); bin(&mut iso, o, "tx", &b, true);
+    } }
     // (2) adversarial structures: nested maximal declared lengths (outer vector at the cap, inner vector at the cap, ...)
     let cap = monero::consensus::encode::MAX_VEC_MEM_ALLOC_SIZE as u64;
     let mut nested = vec![2u8, 0]; nested.extend(gen::varint_bytes(cap / 64)); nested.extend([2, 0]); nested.extend(gen::varint_bytes(cap / 8)); nested.extend([1, 2, 3]);
@@ -177,6 +205,9 @@ pub fn run(o: &mut Out, tier: &str, seed: u64) {
     let addr = Address::standard(Network::Mainnet, vp.spend, PublicKey::from_private_key(&vp.view)).to_string();
     let mut texts: Vec<Vec<u8>> = vec![addr.clone().into_bytes(), addr[..addr.len() - 1].as_bytes().to_vec(), format!("{}1", addr).into_bytes(), addr.replace('4', "0").into_bytes(), vec![b'z'; 95], vec![b'1'; 106], vec![], vec![0xff; 10],
         b"1.5 xmr".to_vec(), b"-0.000000000001 XMR".to_vec(), b"9223372036854775807 piconero".to_vec(), b"18446744073709551616 pXMR".to_vec(), b". xmr".to_vec(), b"-. xmr".to_vec(), "1 \u{b5}XMR".as_bytes().to_vec(), b"1  xmr".to_vec(), b"1 xmr ".to_vec(), b" 1 xmr".to_vec(),
+        b"-9223372036854775808 piconero".to_vec(), b"-9223372036854775807 piconero".to_vec(), b"-9223372036854775809 pXMR".to_vec(), b"9223372036854775808 piconero".to_vec(), b"-9223372.036854775808 xmr".to_vec(),
+        b"-9223372036.854775808 millinero".to_vec(), b"-9223372036854.775808 micronero".to_vec(), b"-9223372036854775.808 nanonero".to_vec(), b"-18446744073709551615 piconero".to_vec(), b"18446744073709551615 piconero".to_vec(),
+        b"-9223372036854775808".to_vec(), b"-9223372.036854775808".to_vec(), b"9223372036854775808".to_vec(), b"-0".to_vec(), b"-".to_vec(), b"-0 xmr".to_vec(),
         vec![b'9'; 51], vec![b'9'; 50], b"0x".to_vec(), vec![b'0'; 64], vec![b'f'; 64], vec![b'F'; 63], b"0x0000000000000000".to_vec(), vec![b'a'; 100_000], "\u{1f980}".repeat(30).into_bytes()];
     for _ in 0..(if thorough { 3000 } else { 400 }) { let len = r.range(0, 110) as usize; let alphabet: &[u8] = *r.pick(&[&b"0123456789.-"[..], &b"0123456789abcdefABCDEFx"[..], &b"123456789ABCDEFGHJKLMNPQRSTUVWXYZabcdefghijkmnopqrstuvwxyz"[..], &b" xmrXMRpiconanomillimicro0123456789.-\xc2\xb5"[..]]);
         texts.push((0..len).map(|_| *r.pick(alphabet)).collect()); }
